@@ -20,7 +20,8 @@ from .tlc import run_tlc, BUILD
 
 VERIF = os.path.dirname(os.path.dirname(os.path.abspath(__file__)))
 BODIES = {"B1": "keep;\r\n", "B2": "# two\r\nif true {\r\n  stop;\r\n}", "B3": "", "B4": "OK x\r\nNO\r\nBYE\r\n",
-          "B5": "redirect \"é@ex.org\";\nkeep;\n", "B6": "discard;\r\n\r\n"}
+          "B5": "redirect \"é@ex.org\";\nkeep;\n", "B6": "discard;\r\n\r\n",
+          "B7": "# sep\u2028arators \x0c in\x0bside \u0085 a line\x1c\r\nkeep;\r\n"}
 NAMES = ["a", "b", "c"]
 STEP_VERB = {"list": "LISTSCRIPTS", "get": "GETSCRIPT", "put": "PUTSCRIPT", "setactive": "SETACTIVE", "delete": "DELETESCRIPT"}
 
@@ -249,8 +250,8 @@ def validate(traces):
 
 
 def tlc_rename(tier):
-    names = '{"a", "b", "c"}' if tier == "thorough" else '{"a", "b"}'
-    bodies = '{"B1", "B3"}'
+    names = '{"a", "b", "r{2}"}' if tier == "thorough" else '{"a", "r{2}"}'
+    bodies = '{"B2", "B3", "B7"}'       # B3 is the empty script, B7 holds exotic line separators inside a line
     cfg = ("SPECIFICATION RSpec\nCONSTANTS\n Names = %s\n Bodies = %s\n FaultKinds = {\"NO\", \"BYE\", \"silence\", \"lost\"}\n"
            "INVARIANT InvNoLoss\nINVARIANT InvNoOverwrite\nINVARIANT InvSuccessPost\nINVARIANT InvFailsCleanly\n"
            "INVARIANT EmitRename\nCHECK_DEADLOCK FALSE\n" % (names, bodies))
@@ -261,8 +262,8 @@ def tlc_rename(tier):
 
 def tlc_sessions(maxops, simulate, seed, ops):
     defs = ('MCInit == {[scripts |-> ("a" :> "B1") @@ ("b" :> "B2"), active |-> "a"], [scripts |-> <<>>, active |-> ""],'
-            ' [scripts |-> ("c" :> "B4"), active |-> ""]}\n')
-    cfg = ("SPECIFICATION Spec\nCONSTANTS\n Names = {\"a\", \"b\", \"c\"}\n Bodies = {\"B1\", \"B2\", \"B3\", \"B4\", \"B5\", \"B6\"}\n"
+            ' [scripts |-> ("r{2}" :> "B4"), active |-> ""]}\n')
+    cfg = ("SPECIFICATION Spec\nCONSTANTS\n Names = {\"a\", \"b\", \"r{2}\"}\n Bodies = {\"B1\", \"B2\", \"B3\", \"B4\", \"B5\", \"B6\", \"B7\"}\n"
            " MaxOps = %d\n InitStores <- MCInit\n OpKinds = {%s}\nINVARIANT Emit\nINVARIANT WellFormed\nCHECK_DEADLOCK FALSE\n"
            % (maxops, ", ".join('"%s"' % o for o in ops)))
     out = []
